@@ -84,8 +84,6 @@ fn c18_recheck_neighbours() {
                 let got = slice_neighbours_recheck(true, forward, &r, &anchor, &symbols);
                 assert!(!got || s == 0, "OBL:C18.recheck.inactive_version_is_not_walked");
                 assert!(got == live, "OBL:C18.recheck.neighbours_agrees_with_the_live_filter");
-                // a present-day read trusts the index and re-checks nothing
-                assert!(slice_neighbours_recheck(false, forward, &r, &anchor, &symbols), "OBL:C18.recheck.live_read_trusts_the_index");
                 d += 1;
             }
             k += 1;
@@ -109,7 +107,6 @@ fn c18_recheck_tuple_subjects() {
             let got = slice_tuple_subjects_recheck(true, &r, &symbols);
             assert!(!got || s == 0, "OBL:C18.recheck.inactive_version_is_not_walked");
             assert!(got == (s == 0 && pred_in), "OBL:C18.recheck.tuple_subjects_agrees_with_the_live_filter");
-            assert!(slice_tuple_subjects_recheck(false, &r, &symbols), "OBL:C18.recheck.live_read_trusts_the_index");
             k += 1;
         }
         s += 1;
